@@ -1,50 +1,9 @@
-// numkernel — operation table and generic enumerators (see numkernel.hh for the oracle).
+// numkernel — operation table, thunks and typed front ends of the enumerators (cores: numkernel.cc, oracle: numkernel.hh).
 #ifndef NUMKERNEL_OPS_HH
 #define NUMKERNEL_OPS_HH
 #include "numkernel.hh"
 
 namespace nk {
-
-inline const char* intern(const std::string& s) { static std::set<std::string> pool; return pool.insert(s).first->c_str(); }
-
-// ---------------------------------------------------------------- representability of an exact value in a destination type
-template <typename T> inline typename std::enable_if<IsInt<T>::value, bool>::type repr_T(const Q& q, const Lim& L) { return q.get_den() == 1 && q >= L.lo && q <= L.hi; }
-template <typename T> struct FltFmt;
-template <> struct FltFmt<float> { enum { P = 24, EMIN = -149, EMAX = 128 }; };
-template <> struct FltFmt<double> { enum { P = 53, EMIN = -1074, EMAX = 1024 }; };
-template <> struct FltFmt<long double> { enum { P = 64, EMIN = -16445, EMAX = 16384 }; };
-template <typename T> inline typename std::enable_if<IsFlt<T>::value, bool>::type repr_T(const Q& q, const Lim&) {
-  if (::sgn(q) == 0) return true;
-  const Z& d = q.get_den(); if (mpz_popcount(d.get_mpz_t()) != 1) return false;
-  Z n = abs(q.get_num()); long tz = (long) mpz_scan1(n.get_mpz_t(), 0); long e = tz - (long) (mpz_sizeinbase(d.get_mpz_t(), 2) - 1);
-  long bl = (long) mpz_sizeinbase(n.get_mpz_t(), 2) - tz;   // bits of the odd part
-  return bl <= FltFmt<T>::P && e >= FltFmt<T>::EMIN && bl + e <= FltFmt<T>::EMAX;
-}
-template <typename T> inline typename std::enable_if<std::is_same<T, Z>::value, bool>::type repr_T(const Q& q, const Lim&) { return q.get_den() == 1; }
-template <typename T> inline typename std::enable_if<std::is_same<T, Q>::value, bool>::type repr_T(const Q&, const Lim&) { return true; }
-template <typename N> inline bool representable(const XQ& e) { typedef typename Kind<N>::raw_t T; return e.fin() && !e.root && repr_T<T>(e.q, lim<N>()); }
-
-// ---------------------------------------------------------------- triage classes (deterministic predicates on the operands / exact result)
-template <typename N> inline std::string res_class(const Ex& ex, bool special_operand) {
-  if (ex.u != U_NONE) return UNDEF_NAME[ex.u];
-  const Lim& L = lim<N>();
-  if (ex.v.inf()) return "inf-result";
-  if (L.bounded && xcmp(ex.v, L.lo) < 0) return "neg-overflow";
-  if (L.bounded && xcmp(ex.v, L.hi) > 0) return "pos-overflow";
-  if (ex.has_prod && L.bounded && ex.prod.fin() && xcmp(ex.prod, L.lo) < 0) return "product-neg-overflow";
-  if (ex.has_prod && L.bounded && ex.prod.fin() && xcmp(ex.prod, L.hi) > 0) return "product-pos-overflow";
-  if (special_operand) return "inf-operand";
-  return representable<N>(ex.v) ? "exact" : "inexact";
-}
-inline bool plain_class(const char* c) { return strcmp(c, "exact") == 0; }
-
-template <typename T> inline int type_bits() { return std::is_class<T>::value ? 0 : (int) (sizeof(T) * 8); }
-template <typename T> inline std::string exp_class(unsigned e) {
-  int b = IsInt<T>::value ? type_bits<T>() : 64;
-  if (e == 0) return "exp0"; if ((int) e < b - 1 && e < 0x7fffffffU) return "exp-small";
-  if (IsInt<T>::value) { if ((int) e == b - 1) return "exp=bits-1"; if ((int) e == b) return "exp=bits"; return "exp>bits"; }
-  return "exp-large";
-}
 
 // ---------------------------------------------------------------- operation table
 #define NK_BIN(NAME, PPLFN, EXACT) struct Op_##NAME { static const char* name() { return #NAME; } \
@@ -67,269 +26,45 @@ struct Op_add_mul { static const char* name() { return "add_mul"; } static const
 struct Op_sub_mul { static const char* name() { return "sub_mul"; } static const bool sub = true;
   template <typename To, typename A, typename B> static Result call(To& t, const A& a, const B& b, Rounding_Dir d) { return sub_mul_assign_r(t, a, b, d); } };
 
-// ---------------------------------------------------------------- per-site "undefined behaviour seen here" guards
-// Inputs for which a sanitizer report inside PPL was observed are first executed in a forked child, so that the
-// engine survives, reports the crash under a precise key and goes on.  The predicates are stated per operation.
-struct CrashKey { std::set<std::string> reported; };
-inline bool probe_report(const Site& s, const char* cls, const std::string& operands, const std::string& why) {
-  hx::checked();
-  hx::violation(std::string("C11.ub.") + s.op + "." + s.type + ":" + cls, std::string("sanitizer report / crash inside ") + s.op + "<" + s.type + "/" + s.pol + ">(" + operands + "): " + why);
-  return false;
-}
-
+// ---------------------------------------------------------------- thunks: one PPL call on operands of kind N
 template <typename N> inline N fresh() { return N(); }
 template <typename N> inline void junk(N& n, typename std::enable_if<!std::is_class<typename Kind<N>::raw_t>::value, int>::type = 0) {
   typedef typename Kind<N>::raw_t T; Kind<N>::rv(n) = IsInt<T>::value ? (T) 0x55 : (T) 0.3125;
 }
 template <typename N> inline void junk(N&, typename std::enable_if<std::is_class<typename Kind<N>::raw_t>::value, int>::type = 0) {}
+template <typename N> inline void readback(Result r, const N& to, XQ& st) { if (result_representable(r)) st = dec(to); }
 
-struct Tally { unsigned long skipped_contract, probed; Tally() : skipped_contract(0), probed(0) {} };
-inline void flush_tally(const Tally& t) { if (t.skipped_contract) hx::count("skipped.outside_policy_contract", t.skipped_contract); }
-
-// Does operand pair (x, y) of operation Op on kind N need the forked probe?  (specialised in the TUs where UB was observed)
-template <typename N, typename Op> struct Risky { static bool bin(const XQ&, const XQ&) { return false; } static bool un(const XQ&) { return false; } static bool e2(const XQ&, unsigned) { return false; } };
-
-// ---------------------------------------------------------------- enumerators
-// The enumerators are templates on the number kind N only; the operation comes in as a small table of function
-// pointers (thunks instantiated per (N, Op)), which keeps the number of heavy template instantiations low.
-template <typename N> struct BinVT { const char* name; Result (*call)(N&, const N&, const N&, Rounding_Dir); Ex (*exact)(const XQ&, const XQ&); bool (*risky)(const XQ&, const XQ&); };
-template <typename N> struct UnVT { const char* name; Result (*call)(N&, const N&, Rounding_Dir); Ex (*exact)(const XQ&); bool (*risky)(const XQ&); };
-template <typename N> struct E2VT { const char* name; Result (*call)(N&, const N&, unsigned, Rounding_Dir); Ex (*exact)(const XQ&, unsigned); bool (*risky)(const XQ&, unsigned); };
-template <typename N> struct FuVT { const char* name; bool sub; Result (*call)(N&, const N&, const N&, Rounding_Dir); };
-template <typename N, typename Op> inline BinVT<N> binvt() { BinVT<N> v = { Op::name(), &Op::template call<N, N, N>, &Op::exact, &Risky<N, Op>::bin }; return v; }
-template <typename N, typename Op> inline UnVT<N> unvt() { UnVT<N> v = { Op::name(), &Op::template call<N, N>, &Op::exact, &Risky<N, Op>::un }; return v; }
-template <typename N, typename Op> inline E2VT<N> e2vt() { E2VT<N> v = { Op::name(), &Op::template call<N, N>, &Op::exact, &Risky<N, Op>::e2 }; return v; }
-template <typename N, typename Op> inline FuVT<N> fuvt() { FuVT<N> v = { Op::name(), Op::sub, &Op::template call<N, N, N> }; return v; }
-
-template <typename N>
-void run_binary_vt(const BinVT<N>& op, const std::vector<N>& xs, const std::vector<N>& ys, bool try_not_needed) {
-  typedef Kind<N> K; typedef typename K::TP P; typedef typename K::raw_t T;
-  Site s = { op.name, tname<N>(), K::pol() };
-  const bool is_div = strcmp(op.name, "div") == 0, is_idiv = strcmp(op.name, "idiv") == 0, is_rem = strcmp(op.name, "rem") == 0;
-  std::vector<XQ> dy; dy.reserve(ys.size()); for (size_t j = 0; j < ys.size(); ++j) dy.push_back(dec(ys[j]));
-  Tally tl; unsigned long done = 0;
-  for (size_t i = 0; i < xs.size(); ++i) {
-    const XQ ax = dec(xs[i]);
-    for (size_t j = 0; j < ys.size(); ++j) {
-      const XQ& ay = dy[j];
-      Ex ex = op.exact(ax, ay);
-      if (!in_contract<P, T>(ex.u)) { ++tl.skipped_contract; continue; }
-      std::string cl = res_class<N>(ex, ax.inf() || ay.inf());
-      if ((is_div || is_idiv || is_rem) && ex.u == U_NONE && ay.fin() && ax.fin() && (cl == "exact" || cl == "inexact"))
-        cl = std::string(::sgn(ay.q) < 0 ? "negative-divisor-" : "positive-divisor-") + (::sgn(ex_rem(ax, ay).v.q) == 0 ? "exact" : "inexact");
-      const char* cls = intern(cl);
-      Desc desc = desc2(ax, ay);
-      if (op.risky(ax, ay)) {
-        std::string why; const N& x = xs[i]; const N& y = ys[j];
-        if (!survives([&]() { for (int d = 0; d < NDIRS; ++d) { N to = fresh<N>(); op.call(to, x, y, DIRS[d].d); } }, why)) { probe_report(s, cls, desc(), why); continue; }
-      }
-      int nd = NDIRS + ((try_not_needed && ex.u == U_NONE && representable<N>(ex.v)) ? 1 : 0);
-      for (int d = 0; d < nd; ++d) {
-        N to = fresh<N>(); junk(to);
-        if (g_verbose()) fprintf(stderr, "op: %s<%s/%s>(%s, ROUND_%s)\n", s.op, s.type.c_str(), s.pol, desc().c_str(), DIRS[d].name);
-        Result r = op.call(to, xs[i], ys[j], DIRS[d].d);
-        verify<N>(s, DIRS[d].d, cls, r, to, ex, desc);
-        ++done;
-      }
-    }
-  }
-  flush_tally(tl); hx::count(std::string("op.") + op.name, done);
-}
-template <typename N, typename Op> inline void run_binary(const std::vector<N>& xs, const std::vector<N>& ys, bool try_not_needed = true) { run_binary_vt<N>(binvt<N, Op>(), xs, ys, try_not_needed); }
-
-template <typename N>
-void run_unary_vt(const UnVT<N>& op, const std::vector<N>& xs, bool try_not_needed) {
-  typedef Kind<N> K; typedef typename K::TP P; typedef typename K::raw_t T;
-  Site s = { op.name, tname<N>(), K::pol() };
-  const bool is_sqrt = strcmp(op.name, "sqrt") == 0;
-  Tally tl; unsigned long done = 0;
-  for (size_t i = 0; i < xs.size(); ++i) {
-    const XQ ax = dec(xs[i]);
-    Ex ex = op.exact(ax);
-    if (!in_contract<P, T>(ex.u)) { ++tl.skipped_contract; continue; }
-    std::string cl = res_class<N>(ex, ax.inf());
-    if (is_sqrt && ex.u == U_NONE && ax.fin()) {
-      const Lim& L = lim<N>();
-      if (IsInt<T>::value && ax.q * 4 > L.hi + 1) cl = "radicand-top-quarter-" + cl;
-      else if (std::is_same<T, Q>::value && ax.q < 1 && ::sgn(ax.q) > 0) cl = "radicand-below-one-" + cl;
-    }
-    const char* cls = intern(cl);
-    Desc desc = desc1(ax);
-    if (op.risky(ax)) {
-      std::string why; const N& x = xs[i];
-      if (!survives([&]() { for (int d = 0; d < NDIRS; ++d) { N to = fresh<N>(); op.call(to, x, DIRS[d].d); } }, why)) { probe_report(s, cls, desc(), why); continue; }
-    }
-    int nd = NDIRS + ((try_not_needed && ex.u == U_NONE && representable<N>(ex.v)) ? 1 : 0);
-    for (int d = 0; d < nd; ++d) {
-      N to = fresh<N>(); junk(to);
-      if (g_verbose()) fprintf(stderr, "op: %s<%s/%s>(%s, ROUND_%s)\n", s.op, s.type.c_str(), s.pol, desc().c_str(), DIRS[d].name);
-      Result r = op.call(to, xs[i], DIRS[d].d);
-      verify<N>(s, DIRS[d].d, cls, r, to, ex, desc);
-      ++done;
-    }
-  }
-  flush_tally(tl); hx::count(std::string("op.") + op.name, done);
-}
-template <typename N, typename Op> inline void run_unary(const std::vector<N>& xs, bool try_not_needed = true) { run_unary_vt<N>(unvt<N, Op>(), xs, try_not_needed); }
-
-template <typename N>
-void run_2exp_vt(const E2VT<N>& op, const std::vector<N>& xs, const std::vector<unsigned>& exps) {
-  typedef Kind<N> K; typedef typename K::TP P; typedef typename K::raw_t T;
-  Site s = { op.name, tname<N>(), K::pol() };
-  Tally tl; unsigned long done = 0;
-  for (size_t i = 0; i < xs.size(); ++i) {
-    const XQ ax = dec(xs[i]);
-    for (size_t j = 0; j < exps.size(); ++j) {
-      unsigned e = exps[j];
-      if (!IsInt<T>::value && e > 100000) continue;    // exact 2^e would not fit in memory; floats additionally require e < 64 (entry PPL_ASSERT)
-      Ex ex = op.exact(ax, e);
-      if (!in_contract<P, T>(ex.u)) { ++tl.skipped_contract; continue; }
-      const char* cls = intern(exp_class<T>(e) + "," + (ax.fin() ? (::sgn(ax.q) < 0 ? "neg" : ::sgn(ax.q) > 0 ? "pos" : "zero") : "special") + "," + res_class<N>(ex, ax.inf()));
-      Desc desc = desce(ax, e);
-      if (op.risky(ax, e)) {
-        std::string why; const N& x = xs[i];
-        if (!survives([&]() { for (int d = 0; d < NDIRS; ++d) { N to = fresh<N>(); op.call(to, x, e, DIRS[d].d); } }, why)) { probe_report(s, cls, desc(), why); continue; }
-      }
-      for (int d = 0; d < NDIRS; ++d) {
-        N to = fresh<N>(); junk(to);
-        if (g_verbose()) fprintf(stderr, "op: %s<%s/%s>(%s, ROUND_%s)\n", s.op, s.type.c_str(), s.pol, desc().c_str(), DIRS[d].name);
-        Result r = op.call(to, xs[i], e, DIRS[d].d);
-        verify<N>(s, DIRS[d].d, cls, r, to, ex, desc);
-        ++done;
-      }
-    }
-  }
-  flush_tally(tl); hx::count(std::string("op.") + op.name, done);
-}
-template <typename N, typename Op> inline void run_2exp(const std::vector<N>& xs, const std::vector<unsigned>& exps) { run_2exp_vt<N>(e2vt<N, Op>(), xs, exps); }
-
-// fused multiply-add/sub:  to (in/out), x, y
-template <typename N>
-void run_fused_vt(const FuVT<N>& op, const std::vector<N>& accs, const std::vector<N>& xs, const std::vector<N>& ys) {
-  typedef Kind<N> K; typedef typename K::TP P; typedef typename K::raw_t T;
-  Site s = { op.name, tname<N>(), K::pol() };
-  std::vector<XQ> dy; for (size_t j = 0; j < ys.size(); ++j) dy.push_back(dec(ys[j]));
-  std::vector<XQ> da; for (size_t j = 0; j < accs.size(); ++j) da.push_back(dec(accs[j]));
-  Tally tl; unsigned long done = 0;
-  for (size_t i = 0; i < xs.size(); ++i) {
-    const XQ ax = dec(xs[i]);
-    for (size_t j = 0; j < ys.size(); ++j) for (size_t k = 0; k < accs.size(); ++k) {
-      const XQ& ay = dy[j]; const XQ& at = da[k];
-      Ex ex = ex_fused(at, ax, ay, op.sub);
-      if (!in_contract<P, T>(ex.u)) { ++tl.skipped_contract; continue; }
-      const char* cls = intern(res_class<N>(ex, ax.inf() || ay.inf() || at.inf()));
-      Desc desc = desc3(at, ax, ay);
-      for (int d = 0; d < NDIRS; ++d) {
-        N to = accs[k];
-        if (g_verbose()) fprintf(stderr, "op: %s<%s/%s>(%s, ROUND_%s)\n", s.op, s.type.c_str(), s.pol, desc().c_str(), DIRS[d].name);
-        Result r = op.call(to, xs[i], ys[j], DIRS[d].d);
-        verify<N>(s, DIRS[d].d, cls, r, to, ex, desc);
-        ++done;
-      }
-    }
-  }
-  flush_tally(tl); hx::count(std::string("op.") + op.name, done);
-}
-template <typename N, typename Op> inline void run_fused(const std::vector<N>& accs, const std::vector<N>& xs, const std::vector<N>& ys) { run_fused_vt<N>(fuvt<N, Op>(), accs, xs, ys); }
-
-// conversions  To <- From  through assign_r and construct(); core is a template on To only
-template <typename To> struct ConvSrc { const char* tname; const char* pol; size_t n; XQ (*dec_at)(const void*, size_t); Result (*assign)(To&, const void*, size_t, Rounding_Dir); Result (*construct)(To&, const void*, size_t, Rounding_Dir); const void* data; };
-template <typename To>
-void run_convert_core(const ConvSrc<To>& src, bool do_construct) {
-  typedef Kind<To> K; typedef typename K::raw_t T;
-  std::string ty = std::string(tname<To>()) + "<-" + src.tname;
-  const char* polc = intern(std::string(K::pol()) + "<-" + src.pol);
-  Site s = { "assign", ty, polc }; Site sc = { "construct", ty, polc };
-  unsigned long done = 0;
-  for (size_t i = 0; i < src.n; ++i) {
-    const XQ ax = src.dec_at(src.data, i);
-    Ex ex = ex_id(ax);
-    std::string cl = res_class<To>(ex, false);
-    if (ex.u == U_NONE && ax.fin() && cl == "inexact" && IsInt<T>::value) cl = ::sgn(ax.q) < 0 ? "negative-fractional" : "positive-fractional";
-    if (ex.u == U_NONE && ax.inf()) cl = "inf-operand";
-    const char* cls = intern(cl);
-    Desc desc = desc1(ax);
-    int nd = NDIRS + ((ex.u == U_NONE && representable<To>(ex.v)) ? 1 : 0);
-    for (int d = 0; d < nd; ++d) {
-      { To to = fresh<To>(); junk(to);
-        if (g_verbose()) fprintf(stderr, "op: assign<%s/%s>(%s, ROUND_%s)\n", ty.c_str(), polc, desc().c_str(), DIRS[d].name);
-        Result r = src.assign(to, src.data, i, DIRS[d].d);
-        verify<To>(s, DIRS[d].d, cls, r, to, ex, desc); ++done; }
-      if (do_construct) {
-        typename std::aligned_storage<sizeof(To), alignof(To)>::type buf; To* p = reinterpret_cast<To*>(&buf);
-        if (g_verbose()) fprintf(stderr, "op: construct<%s/%s>(%s, ROUND_%s)\n", ty.c_str(), polc, desc().c_str(), DIRS[d].name);
-        Result r = src.construct(*p, src.data, i, DIRS[d].d);
-        verify<To>(sc, DIRS[d].d, cls, r, *p, ex, desc); ++done;
-        p->~To(); }
-    }
-  }
-  hx::count("op.assign", done);
-}
+template <typename N, typename Op> struct BinThunk { static Result run(const void* xs, size_t i, const void* ys, size_t j, Rounding_Dir d, XQ& st) {
+  N to = fresh<N>(); junk(to); Result r = Op::call(to, VecThunk<N>::at(xs, i), VecThunk<N>::at(ys, j), d); readback(r, to, st); return r; } };
+template <typename N, typename Op> struct UnThunk { static Result run(const void* xs, size_t i, Rounding_Dir d, XQ& st) {
+  N to = fresh<N>(); junk(to); Result r = Op::call(to, VecThunk<N>::at(xs, i), d); readback(r, to, st); return r; } };
+template <typename N, typename Op> struct E2Thunk { static Result run(const void* xs, size_t i, unsigned e, Rounding_Dir d, XQ& st) {
+  N to = fresh<N>(); junk(to); Result r = Op::call(to, VecThunk<N>::at(xs, i), e, d); readback(r, to, st); return r; } };
+template <typename N, typename Op> struct FuThunk { static Result run(const void* accs, size_t k, const void* xs, size_t i, const void* ys, size_t j, Rounding_Dir d, XQ& st) {
+  N to = VecThunk<N>::at(accs, k); Result r = Op::call(to, VecThunk<N>::at(xs, i), VecThunk<N>::at(ys, j), d); readback(r, to, st); return r; } };
 template <typename To, typename From> struct ConvThunk {
-  static XQ dec_at(const void* d, size_t i) { return dec((*static_cast<const std::vector<From>*>(d))[i]); }
-  static Result assign(To& t, const void* d, size_t i, Rounding_Dir dir) { return assign_r(t, (*static_cast<const std::vector<From>*>(d))[i], dir); }
-  static Result cons(To& t, const void* d, size_t i, Rounding_Dir dir) { return construct(t, (*static_cast<const std::vector<From>*>(d))[i], dir); }
+  static Result assign(const void* xs, size_t i, const void*, size_t, Rounding_Dir d, XQ& st) { To to = fresh<To>(); junk(to); Result r = assign_r(to, VecThunk<From>::at(xs, i), d); readback(r, to, st); return r; }
+  static Result cons(const void* xs, size_t i, const void*, size_t, Rounding_Dir d, XQ& st) {
+    typename std::aligned_storage<sizeof(To), alignof(To)>::type buf; To* p = reinterpret_cast<To*>(&buf);
+    Result r = construct(*p, VecThunk<From>::at(xs, i), d); readback(r, *p, st); p->~To(); return r; }
 };
-template <typename To, typename From>
-inline void run_convert(const std::vector<From>& xs, bool do_construct = true) {
-  ConvSrc<To> src = { tname<From>(), Kind<From>::pol(), xs.size(), &ConvThunk<To, From>::dec_at, &ConvThunk<To, From>::assign, &ConvThunk<To, From>::cons, &xs };
-  run_convert_core<To>(src, do_construct);
-}
+template <typename To> struct SpThunk { static Result run(int w, Rounding_Dir d, XQ& st) {
+  To to = fresh<To>(); junk(to); Result r = w == 0 ? assign_r(to, PLUS_INFINITY, d) : w == 1 ? assign_r(to, MINUS_INFINITY, d) : assign_r(to, NOT_A_NUMBER, d); readback(r, to, st); return r; } };
+template <typename A, typename B> struct CmpThunk {
+  static CmpOut run(const void* xs, size_t i, const void* ys, size_t j, bool ordered) { CmpOut o; const A& x = VecThunk<A>::at(xs, i); const B& y = VecThunk<B>::at(ys, j);
+    o.p[0] = equal(x, y); o.p[1] = not_equal(x, y); o.p[2] = less_than(x, y); o.p[3] = less_or_equal(x, y); o.p[4] = greater_than(x, y); o.p[5] = greater_or_equal(x, y);
+    o.c = ordered ? cmp(x, y) : 0; return o; }
+  static int sg(const void* xs, size_t i) { return sgn(VecThunk<A>::at(xs, i)); }
+};
 
-// special values:  assign_r(to, PLUS_INFINITY | MINUS_INFINITY | NOT_A_NUMBER, dir)
-template <typename To>
-void run_specials() {
-  typedef Kind<To> K; typedef typename K::TP P;
-  Site s = { "assign_special", tname<To>(), K::pol() };
-  for (int d = 0; d < NDIRS; ++d) for (int w = 0; w < 3; ++w) {
-    To to = fresh<To>(); junk(to); Result r; Ex ex;
-    if (w == 0) { r = assign_r(to, PLUS_INFINITY, DIRS[d].d); ex = Ex(xinf(1)); }
-    else if (w == 1) { r = assign_r(to, MINUS_INFINITY, DIRS[d].d); ex = Ex(xinf(-1)); }
-    else { r = assign_r(to, NOT_A_NUMBER, DIRS[d].d); ex = Ex(U_NAN_OPERAND); }
-    const char* cls = w == 0 ? "plus-infinity" : w == 1 ? "minus-infinity" : "not-a-number";
-    Desc desc = desct(cls);
-    if (verify<To>(s, DIRS[d].d, cls, r, to, ex, desc) && w == 2 && P::has_nan && !result_representable(r)) {
-      hx::checked();
-      hx::violation(std::string("C11.nan.assign_special.") + tname<To>() + ":stored-nan-flagged-unrepresentable", std::string("assign_r(") + kname<To>() + ", NOT_A_NUMBER) stored a NaN (policy has_nan) but returned " + result_name(r));
-    }
-  }
-  hx::count("op.assign_special", 3 * NDIRS);
-}
-
-// comparisons between kinds A and B (core is not a template)
-struct CmpOut { bool p[6]; int c; };
-inline void run_compare_core(const std::string& ty, const std::string& pol, const char* tnA, const std::string& knA, const std::vector<XQ>& dx, const std::vector<XQ>& dy,
-                             const std::function<CmpOut(size_t, size_t, bool)>& f, const std::function<int(size_t)>& sg) {
-  static const char* const NM[6] = { "equal", "not_equal", "less_than", "less_or_equal", "greater_than", "greater_or_equal" };
-  unsigned long done = 0;
-  for (size_t i = 0; i < dx.size(); ++i) {
-    const XQ& ax = dx[i];
-    for (size_t j = 0; j < dy.size(); ++j) {
-      const XQ& ay = dy[j]; int c = xcmp(ax, ay);
-      if (g_verbose()) fprintf(stderr, "op: compare<%s/%s>(%s, %s)\n", ty.c_str(), pol.c_str(), show(ax).c_str(), show(ay).c_str());
-      CmpOut o = f(i, j, c != 2);
-      bool want[6] = { c == 0, c != 0, c == -1, c == -1 || c == 0, c == 1, c == 1 || c == 0 };
-      const char* cls = c == 2 ? "nan-operand" : (ax.inf() || ay.inf()) ? "inf-operand" : c == 0 ? "equal" : "different";
-      hx::checked(6); done += 6;
-      for (int k = 0; k < 6; ++k)
-        if (o.p[k] != want[k]) hx::violation(std::string("C11.rel.") + NM[k] + "." + ty + ":" + cls, std::string(NM[k]) + "<" + ty + "/" + pol + ">(" + show(ax) + ", " + show(ay) + ") returned " + (o.p[k] ? "true" : "false"));
-      if (c != 2) { hx::checked(); ++done;
-        if ((o.c > 0) - (o.c < 0) != c) hx::violation(std::string("C11.rel.cmp.") + ty + ":" + cls, "cmp<" + ty + "/" + pol + ">(" + show(ax) + ", " + show(ay) + ") returned " + std::to_string(o.c)); }
-    }
-    if (!ax.nan()) { hx::checked(); ++done; int g = sg(i); int w = ax.sgn(); if (g != w) hx::violation(std::string("C11.rel.sgn.") + tnA + ":" + (ax.inf() ? "inf-operand" : "finite"), "sgn<" + knA + ">(" + show(ax) + ") returned " + std::to_string(g)); }
-  }
-  hx::count("op.compare", done);
-  static std::unordered_set<uint64_t> seen; uint64_t h = hx::fnv(ty + pol); if (seen.insert(h).second) hx::distinct("compare|" + ty + "|" + pol);
-}
-template <typename A, typename B>
-inline void run_compare(const std::vector<A>& xs, const std::vector<B>& ys) {
-  std::vector<XQ> dx, dy; for (size_t i = 0; i < xs.size(); ++i) dx.push_back(dec(xs[i])); for (size_t j = 0; j < ys.size(); ++j) dy.push_back(dec(ys[j]));
-  run_compare_core(std::string(tname<A>()) + "," + tname<B>(), std::string(Kind<A>::pol()) + "," + Kind<B>::pol(), tname<A>(), kname<A>(), dx, dy,
-    [&](size_t i, size_t j, bool ordered) { CmpOut o; const A& x = xs[i]; const B& y = ys[j];
-      o.p[0] = equal(x, y); o.p[1] = not_equal(x, y); o.p[2] = less_than(x, y); o.p[3] = less_or_equal(x, y); o.p[4] = greater_than(x, y); o.p[5] = greater_or_equal(x, y);
-      o.c = ordered ? cmp(x, y) : 0; return o; },
-    [&](size_t i) { return sgn(xs[i]); });
-}
+// ---------------------------------------------------------------- typed front ends of the cores
+template <typename N, typename Op> inline void run_binary(const std::vector<N>& xs, const std::vector<N>& ys, bool try_not_needed = true) { run_binary_core(kinfo<N>(), Op::name(), &BinThunk<N, Op>::run, &Op::exact, &xs, &ys, try_not_needed); }
+template <typename N, typename Op> inline void run_unary(const std::vector<N>& xs, bool try_not_needed = true) { run_unary_core(kinfo<N>(), Op::name(), &UnThunk<N, Op>::run, &Op::exact, &xs, try_not_needed); }
+template <typename N, typename Op> inline void run_2exp(const std::vector<N>& xs, const std::vector<unsigned>& exps) { run_2exp_core(kinfo<N>(), Op::name(), &E2Thunk<N, Op>::run, &Op::exact, &xs, exps); }
+template <typename N, typename Op> inline void run_fused(const std::vector<N>& accs, const std::vector<N>& xs, const std::vector<N>& ys) { run_fused_core(kinfo<N>(), Op::name(), Op::sub, &FuThunk<N, Op>::run, &accs, &xs, &ys); }
+template <typename To, typename From> inline void run_convert(const std::vector<From>& xs, bool do_construct = true) { run_convert_core(kinfo<To>(), kinfo<From>(), &ConvThunk<To, From>::assign, do_construct ? &ConvThunk<To, From>::cons : (BinRun) 0, &xs); }
+template <typename To> inline void run_specials() { run_specials_core(kinfo<To>(), &SpThunk<To>::run); }
+template <typename A, typename B> inline void run_compare(const std::vector<A>& xs, const std::vector<B>& ys) { run_compare_core(kinfo<A>(), kinfo<B>(), &CmpThunk<A, B>::run, &CmpThunk<A, B>::sg, &xs, &ys); }
 
 } // namespace nk
 #endif
